@@ -7,10 +7,14 @@
 (* iff the descriptor is readable).  Each contender does Rounds rounds of    *)
 (* udeal_start ; [grab] ; critical section ; udeal_yield.                    *)
 (* Variant = "code" | "nonotify" (negative: yield never writes the event)    *)
+(* Aborters: contenders that give up (udeal_abort: waiters - 1, watcher      *)
+(* stopped) when they find themselves waiting before their watcher has run   *)
+(* ("noabortdec": negative, the abort forgets to leave the waiters count -   *)
+(* harmless for the two properties, kept as documentation)                   *)
 (***************************************************************************)
 EXTENDS Naturals, Sequences, FiniteSets, TLC, Json
 
-CONSTANTS NT, Rounds, Variant
+CONSTANTS NT, Rounds, Variant, Aborters
 Threads == 1..NT
 
 VARIABLES waiters, access, ev, pc, round, sched
@@ -27,10 +31,14 @@ NextRound(t) == IF round[t] < Rounds THEN Go(t, "s_add") /\ round' = [round EXCE
 Start(t) == pc[t] = "start" /\ Go(t, "s_add") /\ UNCHANGED <<waiters, access, ev, round>>
 \* udeal_start: upump_start ; fetch_add(waiters) ; first waiter calls the call-back directly
 SAdd(t) == /\ pc[t] = "s_add" /\ waiters' = waiters + 1
-           /\ Go(t, IF waiters = 0 THEN "g_add" ELSE "wait")
+           /\ Go(t, IF waiters = 0 THEN "g_add" ELSE "wait0")
            /\ UNCHANGED <<access, ev, round>>
-\* event loop: dispatched iff the descriptor is readable
-Wake(t) == pc[t] = "wait" /\ ev /\ Go(t, "g_add") /\ UNCHANGED <<waiters, access, ev, round>>
+\* event loop: dispatched iff the descriptor is readable (wait0: the watcher has not run yet this round)
+Wake(t) == pc[t] \in {"wait", "wait0"} /\ (pc[t] = "wait0" => t \notin Aborters) /\ ev /\ Go(t, "g_add")
+           /\ UNCHANGED <<waiters, access, ev, round>>
+\* udeal_abort: the contender gives up before its watcher has had a chance to run
+Abort(t) == /\ pc[t] = "wait0" /\ t \in Aborters
+            /\ waiters' = waiters - 1 /\ NextRound(t) /\ UNCHANGED <<access, ev>>
 \* udeal_grab
 GAdd(t) == /\ pc[t] = "g_add" /\ access' = access + 1
            /\ Go(t, IF access > 0 THEN "g_rd" ELSE "cs")
@@ -49,10 +57,10 @@ YWt(t) == /\ pc[t] = "y_wt" /\ waiters' = waiters - 1
           /\ UNCHANGED <<access, ev>>
 YWr(t) == pc[t] = "y_wr" /\ ev' = TRUE /\ NextRound(t) /\ UNCHANGED <<waiters, access>>
 
-Next == \E t \in Threads : Start(t) \/ SAdd(t) \/ Wake(t) \/ GAdd(t) \/ GRd(t) \/ GSub(t) \/ GWr(t)
+Next == \E t \in Threads : Start(t) \/ SAdd(t) \/ Wake(t) \/ Abort(t) \/ GAdd(t) \/ GRd(t) \/ GSub(t) \/ GWr(t)
                            \/ Cs(t) \/ YAcc(t) \/ YWt(t) \/ YWr(t)
 Spec == Init /\ [][Next]_vars
-FairSpec == Spec /\ \A t \in Threads : WF_vars(Start(t) \/ SAdd(t) \/ Wake(t) \/ GAdd(t) \/ GRd(t) \/ GSub(t) \/ GWr(t) \/ Cs(t) \/ YAcc(t) \/ YWt(t) \/ YWr(t))
+FairSpec == Spec /\ \A t \in Threads : WF_vars(Start(t) \/ SAdd(t) \/ Wake(t) \/ Abort(t) \/ GAdd(t) \/ GRd(t) \/ GSub(t) \/ GWr(t) \/ Cs(t) \/ YAcc(t) \/ YWt(t) \/ YWr(t))
 
 Holders == {t \in Threads : pc[t] \in {"cs", "y_acc"}}
 Mutex == Cardinality(Holders) <= 1
